@@ -12,7 +12,7 @@ static const uint32_t NOLIMIT = std::numeric_limits<uint32_t>::max();
 #define HIRA "\xe3\x81\xb0"  // 3-byte code point -> 9 bytes when percent-encoded
 
 static std::vector<std::string> grow_tokens() {
-  return {"http://", "http:", "a:", "file:", "//", "/", "?", "#", EACUTE, "a", " ", "0x1", "@", ":", "..", HIRA, "%", "\\", "\t"};
+  return {"http://", "http:", "a:", "file:", "//", "/", "?", "#", EACUTE, "a", " ", "0x1", "@", ":", "..", HIRA, "%", "\\", "\t", ":1000"};
 }
 
 struct Case { std::string input; const std::string* base; };
